@@ -305,7 +305,7 @@ operators (`0=2`: inside the array part the `Operator(Equal)` token is kept; `?=
 there) and containers that start with a scalar (objects, arrays, mixed containers — ParseOpen then
 flags the enclosing container, which keeps the mixed mode alive); a nested object whose FIRST
 field is a header field (`{ a = rgb { 1 } … }`) or a parameter block (`{ [[p] v] … }`,
-`{ [[p] k = v … ] … }`).
+`{ [[p] k = v … ] … }`); a parameter value that is the header of a container (`[[p] v] { … }`).
 
 Still outside (tolerated malformations and quirks, see the examples below): an empty container,
 a container starting with `{` or a ghost `{}`, or a parameter block inside the array part of a mixed
@@ -372,6 +372,16 @@ def exampleFullParamFirst : FFields :=
         (.cons [32] ⟨false, [99]⟩ [] .eq (.scal [] ⟨false, [100]⟩) .nil))) .nil []) .nil
 
 example : parse (frenderF exampleFullParamFirst ++ [10]) = .ok (ftapeF exampleFullParamFirst 0 [10]) false := by
+  decide +kernel
+
+/-- `x={[[p] v]{1} c=d}`: a parameter value as header, in first position of a nested object -/
+def exampleFullParamHdr : FFields :=
+  .cons [] ⟨false, [120]⟩ [] .eq
+    (.obj [] [] (.flds (.paramHdr [] false [112] [32] ⟨false, [118]⟩ []
+        (.arrS [] [] ⟨false, [49]⟩ .nil [])
+        (.cons [32] ⟨false, [99]⟩ [] .eq (.scal [] ⟨false, [100]⟩) .nil))) .nil []) .nil
+
+example : parse (frenderF exampleFullParamHdr ++ [10]) = .ok (ftapeF exampleFullParamHdr 0 [10]) false := by
   decide +kernel
 
 /-- `a=b c d`: a mixed top level is not accepted -/
